@@ -193,7 +193,8 @@ class _SNP(types.ModuleType):
 
     def max(self, a, *args, **kw):
         if _is_obj(a) and not args and not kw and a.size:
-            return self._reduce(a, _max2)
+            r = self._reduce(a, _max2)
+            return r if isinstance(r, Sym) else _np.float64(r)
         return _np.max(a, *args, **kw)
     amax = max
 
